@@ -1,4 +1,5 @@
 import Mastverif.Lemmas.Loads
+import Mastverif.Lemmas.History
 /-!
 # C16 — point operations read only the search path (property theorems)
 
@@ -44,6 +45,15 @@ theorem C16_delete (layer : Nat → Nat) (m : Tree) (k : Nat) (hwf : WF layer m.
   have h3 := lvl_le_of_WF layer m.root m.height hwf
   simp only [List.length_append]; omega
 
+/-- the bounds hold on every tree any history produces (from the empty tree, any branch factor ≥ 2,
+    any layer function), whatever part of it is persisted -/
+theorem C16_every_history (layer : Nat → Nat) (e : Enc) (bf : Nat) (hbf : 2 ≤ bf) (ops : List Op) (k : Nat) :
+    let m := execT layer e (Tree.empty bf) ops
+    (m.lookupLoads layer k).length ≤ m.height + 1 ∧ (m.insertLoads layer k).length ≤ m.height + 1 ∧
+    (m.rootLoad ++ delLoads k (m.levels layer k) m.root).length ≤ 2 * (m.height + 1) := by
+  have hi := inv_execT layer e ops (Tree.empty bf) (inv_empty layer bf hbf)
+  exact ⟨C16_get layer _ k hi.wf, C16_insert layer _ k hi.wf, C16_delete layer _ k hi.wf⟩
+
 /-- non-vacuity: a persisted two-level tree -/
 example : WF (fun k => k % 2) 1
     (cons true (cons true nil 2 0 (last true nil)) 3 0 (last true (cons true nil 4 0 (last true nil)))) := by
@@ -54,3 +64,4 @@ end Mast.Tree
 #print axioms Mast.Tree.C16_get
 #print axioms Mast.Tree.C16_insert
 #print axioms Mast.Tree.C16_delete
+#print axioms Mast.Tree.C16_every_history
